@@ -2,7 +2,7 @@
 import vlib
 from props import recfam
 
-INV = ['C18_OnlyRootControlled', 'C18_RecheckedEveryTime', 'C18_ConfigFile']
+INV = ['C18_OnlyRootControlled', 'C18_RecheckedEveryTime', 'C18_ConfigFile', 'C18_BareNameChecked', 'C18_CliConfigChecked']
 
 
 def check(run):
@@ -13,6 +13,13 @@ def check(run):
     traces = run.drive('TestDriveC18', shards, lambda i: dict(VERIF_SEED=run.seed, VERIF_SHARD=i, VERIF_SHARDS=shards), 'c18')
     run.sample_from(traces[0], 2)
     run.validate('Rec_Exec', recfam.rec_cfg('Rec_Exec', INV), traces, 'rec', parallel=8)
+    # conformance with Exec.tla in a pass of its own (drift, not a verdict): an allowed, executable file runs and succeeds
+    import os
+    for t in traces[:4]:
+        rc, out = run.tlc('Rec_Exec', recfam.rec_cfg('Rec_Exec', ['C18_AllowedRuns']), 'conf_' + os.path.basename(t), workers=1, env=dict(VERIF_TRACE=t))
+        if vlib.parse_violation(out):
+            run.cov['drift'].append(dict(trace=os.path.basename(t), note='an allowed executable did not run or returned an error'))
+            vlib.log('[DRIFT] %s: an allowed executable did not run or returned an error' % os.path.basename(t))
     n = recfam.count_lines(traces)
     execd = 0
     for t in traces:
@@ -26,7 +33,8 @@ def check(run):
                       'somebody else} through util.SafeCmdExecution / CmdSensor.GetValue / CmdFan.GetPwm / CmdFan.SetPwm on real files created '
                       'with chown/chmod (harness runs as root), a marker file shows whether the script really ran; two consecutive executions '
                       'with a change of owner / group / mode in between; configuration.Validate on real configuration files with and without '
-                      'command sensors / fans; TLC checks every record against ExecPerm!Allowed; non-trivial = cases',
+                      'command sensors / fans; commands named without a directory with differing files of that name in $PATH and in the working '
+                      'directory (what runs is what must have been checked); TLC checks every record against ExecPerm!Allowed; non-trivial = cases',
                       dict(evaluations=n, distinct_nontrivial=n, cases=n, really_executed=execd, exhaustive=True),
                       ['"other" owner/group = uid/gid 1000', 'a file without any execute bit cannot be started even when the predicate allows it '
                        '(then an error is returned and nothing runs)'])
